@@ -1,7 +1,19 @@
 //! Canonical observation of a real store through the public API (DESIGN.md 3.4).
 //! Produces the same JSON shape as `Model::observe`.
 
-use crate::model::value_json;
+use crate::model::value_json as typed_value_json;
+use std::sync::atomic::{AtomicBool, Ordering};
+
+/// when set, values are observed as their text (`Display`) only: the CSV format stores values as text (C15)
+pub static VALUE_AS_TEXT: AtomicBool = AtomicBool::new(false);
+
+fn value_json(v: &DataValue) -> Value {
+    if VALUE_AS_TEXT.load(Ordering::Relaxed) {
+        Value::String(format!("{}", v))
+    } else {
+        typed_value_json(v)
+    }
+}
 use crate::util::{guard, Panic};
 use serde_json::{json, Value};
 use stam::*;
@@ -17,8 +29,8 @@ impl Names {
         let mut ordinal = 0usize;
         for a in store.annotations() {
             let name = match a.id() {
-                Some(id) => id.to_string(),
-                None => format!("#{}", ordinal),
+                Some(id) if !VALUE_AS_TEXT.load(Ordering::Relaxed) => id.to_string(),
+                _ => format!("#{}", ordinal),
             };
             ann.insert(a.handle().as_usize(), name);
             ordinal += 1;
@@ -67,8 +79,22 @@ pub fn data_name(store: &AnnotationStore, s: AnnotationDataSetHandle, d: Annotat
             // the key may dangle after a faulty removal: do not go through data.key() blindly
             let keyh = data.as_ref().key();
             match data.id() {
-                Some(id) => id.to_string(),
-                None => format!("({}={})", key_name(store, s, keyh), value_json(data.value())),
+                Some(id) if !VALUE_AS_TEXT.load(Ordering::Relaxed) => id.to_string(),
+                _ => {
+                    let base = format!("({}={})", key_name(store, s, keyh), value_json(data.value()));
+                    if VALUE_AS_TEXT.load(Ordering::Relaxed) {
+                        // values of different types may have the same text: number equal names in handle order
+                        let set = store.dataset(s).expect("dataset");
+                        let n = set
+                            .data()
+                            .filter(|o| o.handle() < d && o.as_ref().key() == keyh && format!("{}", o.value()) == format!("{}", data.value()))
+                            .count();
+                        if n > 0 {
+                            return format!("{}#{}", base, n);
+                        }
+                    }
+                    base
+                }
             }
         }
         None => format!("<dead data {}/{}>", s.as_usize(), d.as_usize()),
